@@ -24,9 +24,11 @@ func init() {
 	core.Register(&core.Check{
 		ID:    "C14",
 		Level: "exploration",
-		Rule: "mixed-radix enumeration by rank of all call chains host -> frame1 -> ... -> frameN (N <= reported depth) whose frames alternate between script functions " +
+		Rule: "mixed-radix enumeration by rank of all call chains host -> frame1 -> ... -> frameN whose frames alternate between script functions " +
 			"(5 try shapes: none, catch+rethrow, finally, catch+rethrow+finally, swallowing catch) and native Go frames (7 entry conventions x 10 exit conventions), " +
-			"x 10 host edges x every payload the innermost frame can raise (14 script, 20 native); each chain runs on a fresh runtime and is compared with the structural model. " +
+			"x 10 host edges x every payload the innermost frame can raise (14 script, 20 native). quick: script-first chains of depth <= 4 and native-first chains of depth <= 3 over the full alphabet; " +
+			"thorough: depth <= 5 over the full alphabet, depth 6 with one payload per propagation class and 3 try shapes, depth 7-8 with the reduced alphabet and no two equal neighbouring frames (bounds_completed lists what was finished). " +
+			"Each chain is built and run for real and compared with the structural model: event log of all catch/finally blocks, host result (type, Value identity, errors.Is/As/Unwrap, top stack frame), idle state, probe program. " +
 			"A chain is non-trivial when a non-normal condition (exception, Go error, uncatchable, foreign panic) crossed at least one Go/JS boundary; chains are distinct by construction (distinct ranks).",
 		Run:    run,
 		Replay: replay,
@@ -575,13 +577,15 @@ func run(r *core.Run) {
 	} else if r.Quick() {
 		interleave(full, 4, 3)
 	} else {
-		// by increasing cost; the deadline decides how far the run gets
-		interleave(full, 4, 4)
+		// the deadline decides how far the run gets: first the quick space, then depth (reduced alphabet up to
+		// depth 8), then breadth (all conventions at depth 5..6 with representative payloads, full alphabet at depth 4..5)
+		interleave(full, 4, 3)
+		add(pruned, true, 5, 8)
+		add(reps, true, 5, 6)
+		add(full, false, 4, 4)
+		add(pruned, false, 5, 7)
 		add(full, true, 5, 5)
-		add(reps, true, 6, 6)
-		add(pruned, true, 7, 8)
 		add(reps, false, 5, 5)
-		add(pruned, false, 6, 7)
 	}
 	for _, s := range shapes {
 		if !runShape(r, rp, s) {
